@@ -270,6 +270,186 @@ type pathGen struct {
 	trap    bool
 	spec    *PathSpec
 	noFuncs bool
+	// document awareness: cur is (one of) the node(s) the path built so far selects in the
+	// target document, members the members a filter being generated ranges over; both nil when
+	// generating blind
+	cur     interface{}
+	aware   bool
+	members []interface{}
+}
+
+func literalOf(v interface{}) (string, bool) {
+	switch t := v.(type) {
+	case float64:
+		return strconv.FormatFloat(t, 'g', -1, 64), true
+	case json.Number:
+		return string(t), true
+	case string:
+		for _, r := range t {
+			if r == '\'' || r == '\\' || r == '"' {
+				return "", false
+			}
+		}
+		if chance(50) {
+			return "'" + t + "'", true
+		}
+		return `"` + t + `"`, true
+	case bool:
+		if t {
+			return "true", true
+		}
+		return "false", true
+	case nil:
+		return "null", true
+	}
+	return "", false
+}
+
+func membersOf(v interface{}) []interface{} {
+	switch t := v.(type) {
+	case map[string]interface{}:
+		var out []interface{}
+		for _, k := range sortedKeys(t) {
+			out = append(out, t[k])
+		}
+		return out
+	case []interface{}:
+		return t
+	}
+	return nil
+}
+
+// awareComparison builds a comparison that looks at a field some member really has, against
+// a literal that some member really holds (so that it is true for some members, false for others).
+func (g *pathGen) awareComparison() (string, bool) {
+	if len(g.members) == 0 {
+		return "", false
+	}
+	m := g.members[rn(len(g.members))]
+	at := "@"
+	var v interface{} = m
+	if mm, ok := m.(map[string]interface{}); ok {
+		keys := sortedKeys(mm)
+		if len(keys) == 0 {
+			return "", false
+		}
+		k := keys[rn(len(keys))]
+		at += nameStep(k)
+		v = mm[k]
+		// the literal may come from the same field of another member
+		if o, ok := g.members[rn(len(g.members))].(map[string]interface{}); ok {
+			if ov, ok := o[k]; ok {
+				v = ov
+			}
+		}
+	} else if a, ok := m.([]interface{}); ok && len(a) > 0 {
+		i := rn(len(a))
+		at += "[" + strconv.Itoa(i) + "]"
+		v = a[i]
+	}
+	lit, ok := literalOf(v)
+	if !ok {
+		return "", false
+	}
+	ops := []string{"==", "!=", "=="}
+	switch v.(type) {
+	case float64, json.Number:
+		ops = []string{"==", "!=", "<", "<=", ">", ">="}
+	}
+	op := ops[rn(len(ops))]
+	if chance(30) {
+		g.spec.LiteralLeft = true
+		return lit + sp() + op + sp() + at, true
+	}
+	return at + sp() + op + sp() + lit, true
+}
+
+// awareStep renders a step that matches the node the path selects so far.
+func (g *pathGen) awareStep() (text string, single bool, ok bool) {
+	switch t := g.cur.(type) {
+	case map[string]interface{}:
+		keys := sortedKeys(t)
+		if len(keys) == 0 {
+			return "", false, false
+		}
+		switch rn(10) {
+		case 0, 1, 2, 3:
+			k := keys[rn(len(keys))]
+			g.cur = t[k]
+			return nameStep(k), true, true
+		case 4:
+			g.cur = t[keys[0]]
+			return pick([]string{".*", "[*]"}), false, true
+		case 5:
+			a, b := keys[rn(len(keys))], keys[rn(len(keys))]
+			g.cur = t[a]
+			return "[" + quoteName(a, chance(30)) + "," + quoteName(b, false) + "]", false, true
+		case 6:
+			// recursive descent to a key that exists somewhere below
+			var found []string
+			var walk func(v interface{}, d int)
+			walk = func(v interface{}, d int) {
+				if d > 4 {
+					return
+				}
+				for _, c := range membersOf(v) {
+					if cm, ok := c.(map[string]interface{}); ok {
+						for _, k := range sortedKeys(cm) {
+							if dotOK(k) {
+								found = append(found, k)
+							}
+						}
+					}
+					walk(c, d+1)
+				}
+			}
+			walk(t, 0)
+			if len(found) == 0 {
+				g.cur = t[keys[0]]
+				return "..*", false, true
+			}
+			k := found[rn(len(found))]
+			g.cur = nil
+			return ".." + k, false, true
+		default:
+			g.members = membersOf(t)
+			q := g.query(2)
+			g.members = nil
+			g.cur = t[keys[0]]
+			return "[?(" + sp() + q + sp() + ")]", false, true
+		}
+	case []interface{}:
+		n := len(t)
+		if n == 0 {
+			return "", false, false
+		}
+		switch rn(10) {
+		case 0, 1, 2:
+			i := rn(n)
+			g.cur = t[i]
+			if chance(30) {
+				return "[" + strconv.Itoa(i-n) + "]", true, true
+			}
+			return "[" + strconv.Itoa(i) + "]", true, true
+		case 3:
+			g.cur = t[0]
+			return "[" + pick([]string{":", "0:", ":" + strconv.Itoa(n), "::1", "0:" + strconv.Itoa(n) + ":2", "-" + strconv.Itoa(n) + ":"}) + "]", false, true
+		case 4:
+			i, j := rn(n), rn(n)
+			g.cur = t[i]
+			return "[" + strconv.Itoa(i) + "," + strconv.Itoa(j) + "]", false, true
+		case 5:
+			g.cur = t[0]
+			return pick([]string{".*", "[*]"}), false, true
+		default:
+			g.members = t
+			q := g.query(2)
+			g.members = nil
+			g.cur = t[0]
+			return "[?(" + sp() + q + sp() + ")]", false, true
+		}
+	}
+	return "", false, false
 }
 
 func (g *pathGen) pathKey() string {
@@ -384,6 +564,11 @@ func sp() string {
 }
 
 func (g *pathGen) comparison() string {
+	if len(g.members) > 0 && chance(70) {
+		if c, ok := g.awareComparison(); ok {
+			return c
+		}
+	}
 	op := pick([]string{"==", "!=", "==", "<", "<=", ">", ">="})
 	ordering := op[0] == '<' || op[0] == '>'
 	at := g.singlePath("@")
@@ -508,6 +693,12 @@ func (g *pathGen) multiName() string {
 
 // step renders one path step; single reports whether it keeps a path single-valued.
 func (g *pathGen) step() (text string, single bool) {
+	if g.aware && g.cur != nil && chance(80) {
+		if t, s, ok := g.awareStep(); ok {
+			return t, s
+		}
+	}
+	g.cur = nil
 	switch rn(12) {
 	case 0, 1, 2, 3:
 		return nameStep(g.pathKey()), true
@@ -542,8 +733,13 @@ func (g *pathGen) step() (text string, single bool) {
 
 // genPath renders a random path of up to maxSteps steps plus up to maxFuncs trailing functions.
 func genPath(funcs uint32, trap bool, maxSteps, maxFuncs int) *PathSpec {
+	return genPathFor(nil, funcs, trap, maxSteps, maxFuncs)
+}
+
+// genPathFor generates a path that, with high probability, selects something in doc.
+func genPathFor(doc interface{}, funcs uint32, trap bool, maxSteps, maxFuncs int) *PathSpec {
 	spec := &PathSpec{SingleValued: true}
-	g := &pathGen{funcs: funcs, trap: trap, spec: spec}
+	g := &pathGen{funcs: funcs, trap: trap, spec: spec, cur: doc, aware: doc != nil}
 	s := "$"
 	if chance(5) {
 		s = "" // the grammar allows omitting '$' before a name or bracket
@@ -551,6 +747,9 @@ func genPath(funcs uint32, trap bool, maxSteps, maxFuncs int) *PathSpec {
 	n := rn(maxSteps + 1)
 	if s == "" && n == 0 {
 		n = 1
+	}
+	if s == "" {
+		g.aware = false
 	}
 	for i := 0; i < n; i++ {
 		t, single := g.step()
